@@ -11,10 +11,10 @@ package main
 
 import (
 	"fmt"
-	"os"
 	"go/ast"
 	"go/constant"
 	"go/types"
+	"os"
 
 	"golang.org/x/tools/go/ssa"
 )
@@ -22,6 +22,77 @@ import (
 var constGlobalCache = map[*ssa.Global][]int64{}
 var constGlobalKnown = map[*ssa.Global]bool{}
 var globalWritten map[*ssa.Global]bool
+
+// constScalarValue: the same for a package-level variable of a basic type
+// (the goyacc driver's pathDebug and pathErrorVerbose switches).
+var constScalarCache = map[*ssa.Global]constant.Value{}
+var constScalarKnown = map[*ssa.Global]bool{}
+
+func (x *X) constScalarValue(g *ssa.Global) (constant.Value, types.Type, bool) {
+	el := g.Type().Underlying().(*types.Pointer).Elem()
+	if v, ok := constScalarKnown[g]; ok {
+		return constScalarCache[g], el, v
+	}
+	constScalarKnown[g] = false
+	if g.Pkg == nil || !isModulePkg(g.Pkg.Pkg.Path(), x.module) {
+		return nil, nil, false
+	}
+	b, ok := el.Underlying().(*types.Basic)
+	if !ok || b.Info()&(types.IsInteger|types.IsBoolean) == 0 {
+		return nil, nil, false
+	}
+	pkg := pkgIndex[x.db][g.Pkg.Pkg]
+	if pkg == nil {
+		return nil, nil, false
+	}
+	obj := g.Object()
+	var val constant.Value
+	for _, f := range pkg.Syntax {
+		for _, d := range f.Decls {
+			gd, ok := d.(*ast.GenDecl)
+			if !ok {
+				continue
+			}
+			for _, sp := range gd.Specs {
+				vs, ok := sp.(*ast.ValueSpec)
+				if !ok {
+					continue
+				}
+				for i, nm := range vs.Names {
+					if pkg.TypesInfo.Defs[nm] != obj {
+						continue
+					}
+					if len(vs.Values) == 0 {
+						if b.Info()&types.IsBoolean != 0 {
+							val = constant.MakeBool(false)
+						} else {
+							val = constant.MakeInt64(0)
+						}
+						continue
+					}
+					if len(vs.Names) != len(vs.Values) {
+						return nil, nil, false
+					}
+					tv := pkg.TypesInfo.Types[vs.Values[i]]
+					if tv.Value == nil {
+						return nil, nil, false
+					}
+					val = tv.Value
+				}
+			}
+		}
+	}
+	if val == nil {
+		return nil, nil, false
+	}
+	x.scanGlobalWrites()
+	if globalWritten[g] {
+		return nil, nil, false
+	}
+	constScalarCache[g] = val
+	constScalarKnown[g] = true
+	return val, el, true
+}
 
 func (x *X) constArrayValues(g *ssa.Global) ([]int64, bool) {
 	if v, ok := constGlobalKnown[g]; ok {
@@ -89,8 +160,25 @@ func (x *X) constArrayValues(g *ssa.Global) ([]int64, bool) {
 		}
 		return nil, false
 	}
-	// immutability
-	if globalWritten == nil {
+	x.scanGlobalWrites()
+	if globalWritten[g] {
+		if os.Getenv("GOVC_DEBUG") != "" {
+			fmt.Fprintln(os.Stderr, "constArrayValues: written", g)
+		}
+		return nil, false
+	}
+	constGlobalCache[g] = vals
+	constGlobalKnown[g] = true
+	return vals, true
+}
+
+// scanGlobalWrites: which package-level variables are used in any way other
+// than being read (whole or by element) outside the package initialiser.
+func (x *X) scanGlobalWrites() {
+	if globalWritten != nil {
+		return
+	}
+	{
 		globalWritten = map[*ssa.Global]bool{}
 		fns := append([]*ssa.Function{}, allModuleFunctions(x.prog, x.db)...)
 		for _, fn := range fns {
@@ -137,13 +225,4 @@ func (x *X) constArrayValues(g *ssa.Global) ([]int64, bool) {
 			}
 		}
 	}
-	if globalWritten[g] {
-		if os.Getenv("GOVC_DEBUG") != "" {
-			fmt.Fprintln(os.Stderr, "constArrayValues: written", g)
-		}
-		return nil, false
-	}
-	constGlobalCache[g] = vals
-	constGlobalKnown[g] = true
-	return vals, true
 }
